@@ -118,6 +118,13 @@ def build_app(L, B, seen, how='ctor'):
         seen['bodyobj'] = b
         return 'ok'
 
+    @app.route('/rawcopy', method='POST')
+    def rawcopy():
+        b = app.request.copy().body
+        seen['type'] = type(b).__name__
+        seen['body'] = b.read()
+        return 'ok'
+
     @app.route('/forms', method='POST')
     def forms():
         f = app.request.forms
@@ -150,12 +157,16 @@ def check_kept(ctx, now):
 
 
 def cell(ctx, app, seen, S_target, L, B, framing, kind, grid=False):
+    via_copy = kind == 'raw_copy'        # the handler reads the body through request.copy(): the same limits apply
+    if via_copy:
+        kind = 'raw'
+        ctx.count('body_read_through_a_request_copy')
     body, info = make_body(kind, S_target)
     S = len(body)
     ctype = {'raw': 'application/octet-stream', 'urlencoded': 'application/x-www-form-urlencoded'}.get(kind, f'multipart/form-data; boundary={BOUNDARY}')
     if framing == 'cl':
         st = RecStream(body + b'TAIL-NEVER-READ')
-        env = make_environ('POST', '/raw' if kind == 'raw' else '/forms', stream=st, content_length=S, content_type=ctype)
+        env = make_environ('POST', ('/rawcopy' if via_copy else '/raw') if kind == 'raw' else '/forms', stream=st, content_length=S, content_type=ctype)
         table = None
         ctx.count('cl_cells')
     else:
@@ -171,13 +182,13 @@ def cell(ctx, app, seen, S_target, L, B, framing, kind, grid=False):
             extra = {'CONTENT_LENGTH': str(int(L or B) * 50 + 7)}
         if extra:
             ctx.count('chunked_with_misleading_content_length')
-        env = make_environ('POST', '/raw' if kind == 'raw' else '/forms', stream=st, content_length=None, chunked=True, content_type=ctype, extra=extra)
+        env = make_environ('POST', ('/rawcopy' if via_copy else '/raw') if kind == 'raw' else '/forms', stream=st, content_length=None, chunked=True, content_type=ctype, extra=extra)
         ctx.count('chunked_cells')
     seen.clear()
     r = call_app(app, env)
     consumed = st.consumed if table is None else payload_within(table, st.consumed)
     where = f'size={S} L={L} B={B} framing={"CL" if framing == "cl" else "chunks of %d" % framing} kind={kind}'
-    wit = {'unit': {'kind': 'cell', 'S': S_target, 'L': L, 'B': B, 'framing': framing, 'ckind': kind, 'how': HOW_OF.get(id(app), 'ctor')}}
+    wit = {'unit': {'kind': 'cell', 'S': S_target, 'L': L, 'B': B, 'framing': framing, 'ckind': 'raw_copy' if via_copy else kind, 'how': HOW_OF.get(id(app), 'ctor')}}
     ctx.count('limits_given_to_' + HOW_OF.get(id(app), 'ctor'))
     check_kept(ctx, where)
     if kind == 'raw' and r.code == 200 and seen.get('type') != 'BytesIO' and seen.get('bodyobj') is not None and len(KEPT) < 1:
@@ -349,7 +360,7 @@ def random_unit(ctx, unit):
             framing = rng.choice(['cl', 'cl', rng.randint(1, 2 * B + 5), B, B + 1])
             if framing != 'cl' and (framing == 1 and S > 3000):
                 framing = 7
-            kind = rng.choice(['raw', 'raw', 'urlencoded', 'mp_text', 'mp_file', 'mp_texts'])
+            kind = rng.choice(['raw', 'raw', 'urlencoded', 'mp_text', 'mp_file', 'mp_texts', 'raw_copy'])
             cell(ctx, app, seen, S, L, B, framing, kind)
         if i % 300 == 0:
             ctx.sample({'random_cell': {'max_body_size': L, 'max_memfile_size': B, 'last_size': S, 'framing': str(framing), 'kind': kind}})
@@ -367,7 +378,7 @@ def grid_unit(ctx, unit):
         for framing in framings:
             if framing == 1 and S > 20000:
                 continue
-            for kind in ('raw', 'urlencoded', 'mp_text', 'mp_file', 'mp_texts'):
+            for kind in ('raw', 'urlencoded', 'mp_text', 'mp_file', 'mp_texts', 'raw_copy'):
                 cell(ctx, app, seen, S, L, B, framing, kind, grid=True)
     ctx.sample({'max_body_size': L, 'max_memfile_size': B, 'sizes': sizes_for(L, B), 'framings': [str(f) for f in framings],
                 'content_kinds': ['raw', 'urlencoded', 'mp_text', 'mp_file', 'mp_texts']})
